@@ -1,6 +1,7 @@
 package allocation
 
 import (
+	"io"
 	"net"
 	"time"
 )
@@ -100,14 +101,43 @@ type VConn struct {
 	Closed        int
 	Deadlines     int
 	Written       [][]byte
+	// Harness-driven stream (piping harnesses): if In is set, Read waits for the next chunk on it (closed
+	// channel = EOF); if WGate is set, Write waits for a token on it before it records the bytes.
+	In       chan []byte
+	WGate    chan struct{}
+	inClosed bool
 }
 
-func (c *VConn) Read(p []byte) (int, error)         { return 0, net.ErrClosed }
+func (c *VConn) Read(p []byte) (int, error) {
+	if c.In == nil {
+		return 0, net.ErrClosed
+	}
+	d, ok := <-c.In
+	if !ok {
+		return 0, io.EOF
+	}
+	return copy(p, d), nil
+}
 func (c *VConn) Write(p []byte) (int, error) {
+	if c.WGate != nil {
+		<-c.WGate
+	}
 	c.Written = append(c.Written, append([]byte{}, p...))
 	return len(p), nil
 }
-func (c *VConn) Close() error                       { c.Closed++; return nil }
+
+// EOF ends the inbound stream (the other side closed or this end was closed).
+func (c *VConn) EOF() {
+	if c.In != nil && !c.inClosed {
+		c.inClosed = true
+		close(c.In)
+	}
+}
+func (c *VConn) Close() error {
+	c.Closed++
+	c.EOF()
+	return nil
+}
 func (c *VConn) LocalAddr() net.Addr                { return c.Local }
 func (c *VConn) RemoteAddr() net.Addr               { return c.Remote }
 func (c *VConn) SetDeadline(t time.Time) error      { c.Deadlines++; return nil }
